@@ -16,6 +16,8 @@ The MQTT transport, `src/aiomysensors/transport/mqtt.py`.
   exceptions its two `except` clauses catch is read from the generated `Gen.excMqttIncoming`, and
   `_connect`/`_disconnect`/`_publish`/`_subscribe` read `Gen.excMqttConnect`/`excMqttDisconnect`/
   `excMqttPublish`/`excMqttSubscribe`, so the theorems depend on the code's except clauses.
+* The `MQTTClient` object that holds these pieces across connect / disconnect / connect again
+  (`_client`, `_incoming_task`, the queue created in `__init__`) is `Model/MqttObject.lean`.
 -/
 import AioMySensors.Model.PyNum
 import AioMySensors.Model.Effects
